@@ -1,15 +1,82 @@
 """C17 - progress: wait-free / lock-free operations never wait on other threads (harness progress.c)."""
 from props import prop, case, H
 
+# -fno-sanitize=null: _cds_lfs_push() evaluates &head->node with head == NULL on its first iteration (see props_c11).
 H('progress', ['progress.c'], cflags=['-fno-sanitize=null'])
 
 
-def _c(name, flavor, variant, reps, groups='', extra=(), lgpl=True, timeout=240):
+def _c(name, flavor, variant, reps, groups='', extra=(), lgpl=True, timeout=300, env=None):
     args = ['--reps=%d' % reps] + (['--groups=%s' % groups] if groups else []) + list(extra)
-    return case(name, 'progress', flavor, variant, args, env={'LD_BIND_NOW': '1'}, cpus=5, timeout=timeout, lgpl=lgpl)
+    e = {'LD_BIND_NOW': '1'}
+    e.update(env or {})
+    return case(name, 'progress', flavor, variant, args, env=e, cpus=5, timeout=timeout, lgpl=lgpl)
 
 
 @prop('C17', 'Progress: wait-free and lock-free operations never wait on other threads', 'fault_enumeration',
-      'TODO', [])
+      'one evaluation = one library call O made by the pinned subject thread on a fresh structure in a given initial state '
+      '(empty / one node / several nodes / logically removed node still linked / resize half done) while 0-3 other pinned '
+      'threads are PARKED at hook point P in the middle of their own operation (enqueue between tail exchange and link '
+      'store, push between head exchange and next store, dequeue / pop / splice before their cmpxchg / second exchange, '
+      'lfq enqueue linked-but-tail-not-advanced, hash-table add / replace before cmpxchg, del flagged / in gc / before '
+      'ownership, resize before size publish / while populating / before its grace period / before and during bucket '
+      'removal, synchronize_rcu() holding rcu_gp_lock and/or the registry lock / before its futex sleep / queued behind '
+      'it, call_rcu helper before its sleep). The subject\'s OWN retired instructions inside the call are counted by '
+      'single-stepping (EFLAGS.TF + SIGTRAP; marker counting only in the TSan variant). Violation = (a) the count exceeds '
+      'B while the others are parked: wait-free and *_nonblocking B = max(2000, 20 x largest solo cost of that operation '
+      'measured in the same run), lock-free B = 50000, hash-table lookup / first / next B = 300 x (nodes + bucket nodes '
+      'that can be linked + 2) per call, all x4 under ASan; (b) the subject is about to execute a blocking system call '
+      '(poll, futex wait, nanosleep, sched_yield ...; decoded in the trap handler) or reaches the CDS_WFCQ_WAIT_SLEEP '
+      'customisation macro; (c) a wait marker is hit more than twice / a retry marker more than 64 times inside one call; '
+      '(d) the result differs from the sequential model extended with the parked operations (linearised or not according '
+      'to the point they are parked at): e.g. behind a parked enqueuer dequeue_nonblocking / first / next / splice must '
+      'say WOULDBLOCK (never NULL / empty), cds_wfcq_empty() false, enqueue "was non-empty"; lookups never return a '
+      'logically removed node; del of a node flagged by a parked deleter returns -ENOENT; (e) with NOTHING in flight a '
+      '*_nonblocking call returns WOULDBLOCK or anything but the model\'s answer; (f) after the parked threads are released '
+      'the final content (queue order, stack order, hash-table node set, one owner per removed node, unique keys) differs '
+      'from the model. The verdict is recorded from the step count / logical event first; only then are the parked '
+      'threads released so that the subject can return. non-trivial = every parker of the triple was confirmed parked at '
+      'its point before O started (nontrivial counter) - quiet evaluations (nothing parked) provide the solo baseline; '
+      'distinct signature = "P:O:state:nfrozen". Evidence notes list per operation: solo cost range, largest cost with '
+      'parked threads and where, bound used.',
+      ['x86-64; instruction counts include the URCU_VERIF hook-function calls inside the operation (same overhead in the solo baseline)',
+       'reachable states are sampled through the listed hook points, not enumerated exhaustively; "from any reachable '
+       'state" is claimed only for these suspension points and 1-3 parked threads',
+       'with every other thread parked, wait-freedom and lock-freedom both reduce to "finishes within a bound of own steps '
+       'without waiting"; bounded-under-interference (wait-free proper) is not observable this way',
+       'documented mutual-exclusion rules respected: no second wfcq consumer next to a parked one; concurrent stack pops '
+       'follow the RCU scheme (nodes not reused before the triple ends)',
+       'hash tables without CDS_LFHT_AUTO_RESIZE (the lazy resize launch allocates and queues work); lfq dummy nodes are '
+       'released through a harness queue_call_rcu callback; malloc() inside cds_lfq_dequeue_rcu counts as own steps',
+       'bp flavor: read-side primitives not evaluated (not in the statement); TSan variant: marker counting instead of '
+       'single-stepping (a wait without marker would show as an inconclusive watchdog stop there)',
+       'LD_BIND_NOW=1 (the harness re-executes itself with it) so that lazy symbol resolution is not charged to an operation'])
 def c17(tier, seed):
-    return [_c('memb-plain', 'memb', 'plain', 1)]
+    out = []
+    if tier == 'quick':
+        out.append(_c('memb-plain', 'memb', 'plain', 3))
+        out.append(_c('qsbr-plain', 'qsbr', 'plain', 2))
+        out.append(_c('mb-plain', 'mb', 'plain', 1))
+        out.append(_c('memb-nolgpl', 'memb', 'plain', 1, lgpl=False))
+        out.append(_c('memb-builtins', 'memb', 'builtins', 1))
+        out.append(_c('memb-asan', 'memb', 'asan', 1, extra=['--ht-stride=6']))
+        out.append(_c('qsbr-asan-rs', 'qsbr', 'asan', 2, groups='rs,lfq'))
+        out.append(_c('memb-nomembarrier-rs', 'memb', 'plain', 2, groups='rs', env={'VP_NO_MEMBARRIER': '1'}))
+        out.append(_c('memb-tsan', 'memb', 'tsan', 6, extra=['--stall-ms=90000']))
+        return out
+    s = 30
+    out.append(_c('memb-plain', 'memb', 'plain', 3 * s, timeout=3600))
+    out.append(_c('memb-plain-full', 'memb', 'plain', 24, extra=['--ht-stride=1'], timeout=3600))
+    out.append(_c('qsbr-plain', 'qsbr', 'plain', 2 * s, timeout=3600))
+    out.append(_c('mb-plain', 'mb', 'plain', 2 * s, timeout=3600))
+    out.append(_c('bp-plain-lfht', 'bp', 'plain', 2 * s, groups='lfht,lfq,lfs,wfs', timeout=3600))
+    out.append(_c('memb-nolgpl', 'memb', 'plain', 2 * s, lgpl=False, timeout=3600))
+    out.append(_c('qsbr-nolgpl', 'qsbr', 'plain', s, lgpl=False, timeout=3600))
+    out.append(_c('memb-builtins', 'memb', 'builtins', 2 * s, timeout=3600))
+    out.append(_c('qsbr-builtins', 'qsbr', 'builtins', s, timeout=3600))
+    out.append(_c('memb-asan', 'memb', 'asan', 24, extra=['--ht-stride=4'], timeout=5400))
+    out.append(_c('qsbr-asan', 'qsbr', 'asan', 12, extra=['--ht-stride=4'], timeout=5400))
+    out.append(_c('mb-asan-rs', 'mb', 'asan', 2 * s, groups='rs,lfq', timeout=3600))
+    out.append(_c('memb-nomembarrier-rs', 'memb', 'plain', 4 * s, groups='rs', env={'VP_NO_MEMBARRIER': '1'}, timeout=3600))
+    out.append(_c('memb-tsan', 'memb', 'tsan', 6 * s, extra=['--stall-ms=90000'], timeout=3600))
+    out.append(_c('qsbr-tsan', 'qsbr', 'tsan', 3 * s, extra=['--stall-ms=90000'], timeout=3600))
+    return out
